@@ -155,8 +155,17 @@ Definition hb_session_model (cfg : ecfg) (es : list sev) : obs :=
     match p, f with Some t, Some u => u - t | _, _ => 0 end]].
 (* observed row [97; ping_seen; closed; ping_ms; close_ms - ping_ms; sent]: same PING / close verdict as the model,
    the PING within (ivl - lo .. 2 ivl + hi] of the handshake, the close within [window - lo, window + hi] of the PING *)
+(* a peer that hangs (stack.rs hbpeer_stalled): nobody reads, so only the moment the session gives up is observed *)
+Definition hb_session_close_model (cfg : ecfg) (es : list sev) : obs :=
+  let '(_, f) := sess_scan cfg (a_new 0) es None None in
+  [[96; match f with Some _ => 1 | None => 0 end; match f with Some u => u | None => 0 end]].
 Definition hb_session_agrees (cfg : ecfg) (es : list sev) (ivl lo hi : N) (e : obs) : bool :=
   match hb_session_model cfg es, e with
+  | _, [[96; f; cms; _]] =>
+      match hb_session_close_model cfg es with
+      | [[_; mf; mclose]] => (mf =? f) && (if f =? 1 then (mclose <=? cms + lo) && (cms <=? mclose + hi) else true)
+      | _ => false
+      end
   | [[_; mp; mf; _; mwin]], [[97; p; f; pms; win; _]] =>
       (mp =? p) && (mf =? f) &&
       (if p =? 1 then (ivl <=? pms + lo) && (pms <=? 2 * ivl + hi) else true) &&
